@@ -495,7 +495,7 @@ def program_features(nodes, m, t):
 
 
 def make_party_program(nodes, l, receivers=None, on_value=None, collect_shares=False,
-                       out_mode='end'):
+                       out_mode='end', on_output=None):
     """Return `async def prog(mpc, pid)` executing nodes; returns list of opened node values.
 
     Each scalar node value is opened with mpc.output at the end (all started, then awaited);
@@ -507,6 +507,7 @@ def make_party_program(nodes, l, receivers=None, on_value=None, collect_shares=F
         import asyncio
         secint = mpc.SecInt(l)
         vals = []
+        eager = []
 
         @mpc.coroutine
         async def helper(a, b):
@@ -596,11 +597,20 @@ def make_party_program(nodes, l, receivers=None, on_value=None, collect_shares=F
             vals.append(v)
             if on_value is not None:
                 on_value(pid, len(vals) - 1, v)
+            if out_mode == 'eager':
+                # open every value as soon as it exists; completions are reported through on_output
+                f = _open(mpc, v, receivers)
+                eager.append(f)
+                if on_output is not None:
+                    _watch(f, pid, [len(vals) - 1], on_output)
 
         # open everything: start all outputs, then await them
         futs = []
-        for nd, v in zip(nodes, vals):
-            futs.append(_open(mpc, v, receivers))
+        for k, (nd, v) in enumerate(zip(nodes, vals)):
+            futs.append(eager[k] if out_mode == 'eager' else _open(mpc, v, receivers))
+        if out_mode == 'after_shutdown':
+            # outputs are started but not awaited: shutdown itself has to wait for them
+            await mpc.shutdown()
         outs = []
         for f in futs:
             outs.append(await _resolve(f))
@@ -647,6 +657,21 @@ def _secure_multi(mpc, nd, vals):
         x, y = mpc.if_swap(vals[nd[2]], g(nd[3]), g(nd[4]))
         return [list(x), list(y)]
     raise ValueError(op)
+
+
+def _watch(f, pid, path, on_output):
+    """Report the completion of every output future in the nested structure f."""
+    if isinstance(f, list):
+        for k, x in enumerate(f):
+            _watch(x, pid, path + [k], on_output)
+    elif f is None or isinstance(f, (bool, int)):
+        if f is not None:
+            on_output(pid, path, f)
+    else:
+        def cb(fut):
+            if not fut.cancelled() and fut.exception() is None:
+                on_output(pid, path, fut.result())
+        f.add_done_callback(cb)
 
 
 async def _own_shares(mpc, v):
@@ -760,7 +785,7 @@ def schedule(draw, m, rich=True):
 
 
 def run_int_case(case, collect_shares=False, receivers=None, on_value=None, sim_hook=None,
-                 sec_param=30):
+                 sec_param=30, out_mode='end', on_output=None):
     """Run an integer program case in the simulator; returns (sim, result, ref_vals)."""
     from vlib import sim as simmod
     nodes, l = case['nodes'], case['l']
@@ -772,8 +797,8 @@ def run_int_case(case, collect_shares=False, receivers=None, on_value=None, sim_
         if sim_hook is not None:
             sim_hook(sim)
         prog = make_party_program(nodes, l, receivers=receivers, on_value=on_value,
-                                  collect_shares=collect_shares)
-        res = sim.run_programs(prog)
+                                  collect_shares=collect_shares, out_mode=out_mode, on_output=on_output)
+        res = sim.run_programs(prog, shutdown=out_mode != 'after_shutdown')
     finally:
         sim.close()
     return sim, res, ref_vals
